@@ -582,4 +582,402 @@ theorem walk8_blocksH8 (data : Bytes) : ∀ (n k h : Nat), 8 * (k + n) ≤ data.
     have : k + 1 + n = k + (n + 1) := by omega
     rw [this]
 
+theorem tdiv8_cast (n : Nat) : ((n : Int)).tdiv 8 = ((n / 8 : Nat) : Int) := by
+  rw [Int.tdiv_eq_ediv_of_nonneg (by omega)]; simp
+theorem tmod8_cast (n : Nat) : ((n : Int)).tmod 8 = ((n % 8 : Nat) : Int) := by
+  rw [Int.tmod_eq_emod_of_nonneg (by omega)]; simp
+
+theorem murmur64_pre_bridge (A : Arrays) (ρ : Env) (len seed : Nat) (h1 : ρ 1 = (len : Int)) (h2 : ρ 2 = (seed : Int))
+    (hl : len < 2147483648) (hs : seed < 4294967296) :
+    let ρ' := runEnv A ρ GoModel.loop_murmurHashLong.pre
+    ρ' 4 = (((seed &&& 0xffffffff) ^^^ Murmur.mul64 (len % 18446744073709551616) Murmur.m64 : Nat) : Int)
+    ∧ ρ' 5 = ((Murmur.m64 : Nat) : Int) ∧ ρ' 6 = 47 ∧ ρ' 7 = ((len / 8 : Nat) : Int) ∧ ρ' 1 = (len : Int) := by
+  simp only [GoModel.loop_murmurHashLong.pre, runEnv, eval, upd, h1, h2, if_true, Nat.reduceEqDiff, if_false]
+  refine ⟨?_, rfl, trivial, ?_, trivial⟩
+  · simp only [lit_m64, norm_u64_cast, bxor_u64_cast, mul_u64_cast]
+    have e : evalOp .band .u32 (seed : Int) 4294967295 = ((seed : Nat) : Int) := by
+      have : (4294967295 : Int) = ((4294967295 : Nat) : Int) := rfl
+      rw [this, band_u32_cast]
+      apply congrArg (fun n : Nat => (n : Int))
+      have e : (4294967295 : Nat) = 2 ^ 32 - 1 := rfl
+      rw [Nat.mod_eq_of_lt hs, Nat.mod_eq_of_lt (by decide : 4294967295 < 4294967296), e,
+        Nat.and_two_pow_sub_one_eq_mod]
+      simp [Nat.mod_eq_of_lt hs]
+    rw [e]
+    simp only [norm_u64_cast, bxor_u64_cast, mul_u64_cast]
+    apply congrArg (fun n : Nat => (n : Int))
+    have e2 : seed &&& 0xffffffff = seed := by
+      have e : (0xffffffff : Nat) = 2 ^ 32 - 1 := rfl
+      rw [e, Nat.and_two_pow_sub_one_eq_mod]; exact Nat.mod_eq_of_lt hs
+    simp only [e2, Murmur.mul64, Nat.mod_mod, xm1_64, Nat.mod_mul_mod]
+    rw [Nat.mod_eq_of_lt (by omega : seed < 18446744073709551616)]
+    rfl
+  · simp only [evalOp, tdiv8_cast]
+    simp only [norm, Ty.half, Ty.modulus]; omega
+
+theorem and_m8 (x : Nat) (hx : x < 2 ^ 32) : x &&& 4294967288 = x - x % 8 := by
+  apply Nat.eq_of_testBit_eq
+  intro i
+  have em : (4294967288 : Nat) = (2 ^ 29 - 1) * 2 ^ 3 := by decide
+  have ex : x - x % 8 = x / 2 ^ 3 * 2 ^ 3 := by
+    have := Nat.div_add_mod x 8
+    have e : (8 : Nat) = 2 ^ 3 := by decide
+    rw [← e]; omega
+  rw [Nat.testBit_and, em, ex, Nat.testBit_mul_two_pow, Nat.testBit_mul_two_pow, Nat.testBit_two_pow_sub_one,
+      Nat.testBit_div_two_pow]
+  by_cases h : 3 ≤ i
+  · have e : 3 + (i - 3) = i := by omega
+    by_cases h2 : i < 32
+    · have : i - 3 < 29 := by omega
+      simp [h, this, e]
+    · have hf : x.testBit i = false := Nat.testBit_lt_two_pow (Nat.lt_of_lt_of_le hx (Nat.pow_le_pow_right (by decide) (by omega)))
+      simp [h, e, hf]
+  · simp [h]
+
+theorem band_m8 (len : Nat) (hl : len < 2147483648) :
+    evalOp .band .i32 (len : Int) (-8) = ((len - len % 8 : Nat) : Int) := by
+  simp only [evalOp, bitsOp, pat, norm, Ty.half, Ty.modulus, Int.reduceNeg, Int.reduceMod, Int.reduceToNat]
+  have e : ((len : Int) % 4294967296).toNat = len := by omega
+  rw [e, and_m8 len (by omega)]
+  omega
+
+theorem rem8_i32 (len : Nat) (hl : len < 2147483648) : evalOp .rem .i32 (len : Int) 8 = ((len % 8 : Nat) : Int) := by
+  simp only [evalOp, tmod8_cast]
+  simp only [norm, Ty.half, Ty.modulus]; omega
+
+theorem idx_add_i32 (base : Nat) (j : Int) (hj : 0 ≤ j ∧ j ≤ 7) (hb : base + 7 < 2147483648) :
+    (evalOp .add .i32 (base : Int) j).toNat = base + j.toNat := by
+  simp only [evalOp, norm, Ty.half, Ty.modulus]; omega
+
+
+theorem m256 (d : Nat) : (d &&& 255) % 256 = d &&& 255 := Nat.mod_eq_of_lt (Nat.and_lt_two_pow d (by decide : 255 < 2 ^ 8))
+theorem a255 (d : Nat) : (d &&& 255) % 18446744073709551616 = d &&& 255 :=
+  Nat.mod_eq_of_lt (Nat.lt_of_lt_of_le (Nat.and_lt_two_pow d (by decide : 255 < 2 ^ 8)) (by decide))
+theorem sh255' (d k : Nat) : ((d &&& 255) % 18446744073709551616) <<< k = (d &&& 255) <<< k := by rw [a255]
+
+theorem murmur64_after_bridge (data : Bytes) (hw : WFB data) (ρ : Env) (h : Nat)
+    (h1 : ρ 1 = (data.length : Int)) (h4 : ρ 4 = (h : Int)) (h5 : ρ 5 = ((Murmur.m64 : Nat) : Int)) (h6 : ρ 6 = 47)
+    (hh : h < 18446744073709551616) (hl : data.length < 2147483648) :
+    runRet (dataArrs data) ρ GoModel.loop_murmurHashLong.after
+      = some ((Murmur.fin64 (Murmur.tail64 (data.drop (data.length / 8 * 8)) h) : Nat) : Int) := by
+  obtain ⟨h', rfl⟩ : ∃ h', h = h' % 18446744073709551616 := ⟨h, (Nat.mod_eq_of_lt hh).symm⟩
+  generalize hlen : data.length = len at *
+  have bnd (k : Nat) := getD_lt data hw k
+  have eB := band_m8 len hl
+  have base : len - len % 8 = len / 8 * 8 := by omega
+  have hr : len % 8 = 0 ∨ len % 8 = 1 ∨ len % 8 = 2 ∨ len % 8 = 3 ∨ len % 8 = 4 ∨ len % 8 = 5 ∨ len % 8 = 6 ∨ len % 8 = 7 := by
+    omega
+  rcases hr with hr | hr | hr | hr | hr | hr | hr | hr
+  · have eR : evalOp .rem .i32 (len : Int) 8 = 0 := by rw [rem8_i32 len hl, hr]; rfl
+    have c0 : ([7] : List Int).contains 0 = false := by decide
+    have c1 : ([7, 6] : List Int).contains 0 = false := by decide
+    have c2 : ([7, 6, 5] : List Int).contains 0 = false := by decide
+    have c3 : ([7, 6, 5, 4] : List Int).contains 0 = false := by decide
+    have c4 : ([7, 6, 5, 4, 3] : List Int).contains 0 = false := by decide
+    have c5 : ([7, 6, 5, 4, 3, 2] : List Int).contains 0 = false := by decide
+    have c6 : ([7, 6, 5, 4, 3, 2, 1] : List Int).contains 0 = false := by decide
+    simp only [GoModel.loop_murmurHashLong.after, runRet, eval, evalC, upd, h1, h4, h5, h6, if_true, Nat.reduceEqDiff, if_false,
+      eR, eB, c0, c1, c2, c3, c4, c5, c6, cond_true, cond_false]
+    rw [drop_tail0 data (len / 8 * 8) (by omega)]
+    simp only [lit_255, lit_8, lit_16, lit_24, lit_32, lit_40, lit_48, lit_47, norm_u64_cast, shl_u64_cast, band_u64_cast,
+      band_u8_cast, mul_u64_cast, bxor_u64_cast, shr_u64_cast, Int.toNat_natCast]
+    apply congrArg (fun n : Nat => some (n : Int))
+    simp only [Nat.reduceMod, m256, sh255', Nat.mod_mod]
+    simp only [xm8_64, xm7_64, xm6_64, xm5_64, xm4_64, xm3_64, xm1_64, xm2_64, sm1_64, sm2_64, Nat.mod_mod, Nat.mod_mul_mod]
+    try simp only [a255]
+    simp only [Murmur.fin64, Murmur.tail64, Murmur.mul64, Murmur.shl64, Nat.mod_mod, xm1_64, xm2_64, sm1_64, sm2_64,
+      Nat.mod_mul_mod]
+  · have eR : evalOp .rem .i32 (len : Int) 8 = 1 := by rw [rem8_i32 len hl, hr]; rfl
+    have c0 : ([7] : List Int).contains 1 = false := by decide
+    have c1 : ([7, 6] : List Int).contains 1 = false := by decide
+    have c2 : ([7, 6, 5] : List Int).contains 1 = false := by decide
+    have c3 : ([7, 6, 5, 4] : List Int).contains 1 = false := by decide
+    have c4 : ([7, 6, 5, 4, 3] : List Int).contains 1 = false := by decide
+    have c5 : ([7, 6, 5, 4, 3, 2] : List Int).contains 1 = false := by decide
+    have c6 : ([7, 6, 5, 4, 3, 2, 1] : List Int).contains 1 = true := by decide
+    simp only [GoModel.loop_murmurHashLong.after, runRet, eval, evalC, upd, h1, h4, h5, h6, if_true, Nat.reduceEqDiff, if_false,
+      eR, eB, c0, c1, c2, c3, c4, c5, c6, cond_true, cond_false]
+    rw [drop_tail1 data (len / 8 * 8) (by omega)]
+    simp only [base, Int.toNat_natCast, Int.reduceToNat, dataArrs_getD]
+    have b0 := bnd (len / 8 * 8)
+    generalize data.getD (len / 8 * 8) 0 = x0 at b0
+    simp only [lit_255, lit_8, lit_16, lit_24, lit_32, lit_40, lit_48, lit_47, norm_u64_cast, shl_u64_cast, band_u64_cast,
+      band_u8_cast, mul_u64_cast, bxor_u64_cast, shr_u64_cast, Int.toNat_natCast]
+    apply congrArg (fun n : Nat => some (n : Int))
+    have e0 : x0 % 256 = x0 := Nat.mod_eq_of_lt b0
+    have f0 : x0 % 18446744073709551616 = x0 := Nat.mod_eq_of_lt (by omega)
+    simp only [e0, f0, Nat.reduceMod, m256, sh255', Nat.mod_mod]
+    simp only [xm8_64, xm7_64, xm6_64, xm5_64, xm4_64, xm3_64, xm1_64, xm2_64, sm1_64, sm2_64, Nat.mod_mod, Nat.mod_mul_mod]
+    try simp only [a255]
+    simp only [Murmur.fin64, Murmur.tail64, Murmur.mul64, Murmur.shl64, Nat.mod_mod, xm1_64, xm2_64, sm1_64, sm2_64,
+      Nat.mod_mul_mod]
+  · have eR : evalOp .rem .i32 (len : Int) 8 = 2 := by rw [rem8_i32 len hl, hr]; rfl
+    have c0 : ([7] : List Int).contains 2 = false := by decide
+    have c1 : ([7, 6] : List Int).contains 2 = false := by decide
+    have c2 : ([7, 6, 5] : List Int).contains 2 = false := by decide
+    have c3 : ([7, 6, 5, 4] : List Int).contains 2 = false := by decide
+    have c4 : ([7, 6, 5, 4, 3] : List Int).contains 2 = false := by decide
+    have c5 : ([7, 6, 5, 4, 3, 2] : List Int).contains 2 = true := by decide
+    have c6 : ([7, 6, 5, 4, 3, 2, 1] : List Int).contains 2 = true := by decide
+    simp only [GoModel.loop_murmurHashLong.after, runRet, eval, evalC, upd, h1, h4, h5, h6, if_true, Nat.reduceEqDiff, if_false,
+      eR, eB, c0, c1, c2, c3, c4, c5, c6, cond_true, cond_false]
+    rw [drop_tail2 data (len / 8 * 8) (by omega)]
+    simp only [base, idx_add_i32 (len / 8 * 8) 1 (by omega) (by omega), Int.toNat_natCast, Int.reduceToNat, dataArrs_getD]
+    have b0 := bnd (len / 8 * 8)
+    have b1 := bnd (len / 8 * 8 + 1)
+    generalize data.getD (len / 8 * 8) 0 = x0 at b0
+    generalize data.getD (len / 8 * 8 + 1) 0 = x1 at b1
+    simp only [lit_255, lit_8, lit_16, lit_24, lit_32, lit_40, lit_48, lit_47, norm_u64_cast, shl_u64_cast, band_u64_cast,
+      band_u8_cast, mul_u64_cast, bxor_u64_cast, shr_u64_cast, Int.toNat_natCast]
+    apply congrArg (fun n : Nat => some (n : Int))
+    have e0 : x0 % 256 = x0 := Nat.mod_eq_of_lt b0
+    have f0 : x0 % 18446744073709551616 = x0 := Nat.mod_eq_of_lt (by omega)
+    have e1 : x1 % 256 = x1 := Nat.mod_eq_of_lt b1
+    have f1 : x1 % 18446744073709551616 = x1 := Nat.mod_eq_of_lt (by omega)
+    simp only [e0, f0, e1, f1, Nat.reduceMod, m256, sh255', Nat.mod_mod]
+    simp only [xm8_64, xm7_64, xm6_64, xm5_64, xm4_64, xm3_64, xm1_64, xm2_64, sm1_64, sm2_64, Nat.mod_mod, Nat.mod_mul_mod]
+    try simp only [a255]
+    simp only [Murmur.fin64, Murmur.tail64, Murmur.mul64, Murmur.shl64, Nat.mod_mod, xm1_64, xm2_64, sm1_64, sm2_64,
+      Nat.mod_mul_mod]
+  · have eR : evalOp .rem .i32 (len : Int) 8 = 3 := by rw [rem8_i32 len hl, hr]; rfl
+    have c0 : ([7] : List Int).contains 3 = false := by decide
+    have c1 : ([7, 6] : List Int).contains 3 = false := by decide
+    have c2 : ([7, 6, 5] : List Int).contains 3 = false := by decide
+    have c3 : ([7, 6, 5, 4] : List Int).contains 3 = false := by decide
+    have c4 : ([7, 6, 5, 4, 3] : List Int).contains 3 = true := by decide
+    have c5 : ([7, 6, 5, 4, 3, 2] : List Int).contains 3 = true := by decide
+    have c6 : ([7, 6, 5, 4, 3, 2, 1] : List Int).contains 3 = true := by decide
+    simp only [GoModel.loop_murmurHashLong.after, runRet, eval, evalC, upd, h1, h4, h5, h6, if_true, Nat.reduceEqDiff, if_false,
+      eR, eB, c0, c1, c2, c3, c4, c5, c6, cond_true, cond_false]
+    rw [drop_tail3 data (len / 8 * 8) (by omega)]
+    simp only [base, idx_add_i32 (len / 8 * 8) 1 (by omega) (by omega), idx_add_i32 (len / 8 * 8) 2 (by omega) (by omega), Int.toNat_natCast, Int.reduceToNat, dataArrs_getD]
+    have b0 := bnd (len / 8 * 8)
+    have b1 := bnd (len / 8 * 8 + 1)
+    have b2 := bnd (len / 8 * 8 + 2)
+    generalize data.getD (len / 8 * 8) 0 = x0 at b0
+    generalize data.getD (len / 8 * 8 + 1) 0 = x1 at b1
+    generalize data.getD (len / 8 * 8 + 2) 0 = x2 at b2
+    simp only [lit_255, lit_8, lit_16, lit_24, lit_32, lit_40, lit_48, lit_47, norm_u64_cast, shl_u64_cast, band_u64_cast,
+      band_u8_cast, mul_u64_cast, bxor_u64_cast, shr_u64_cast, Int.toNat_natCast]
+    apply congrArg (fun n : Nat => some (n : Int))
+    have e0 : x0 % 256 = x0 := Nat.mod_eq_of_lt b0
+    have f0 : x0 % 18446744073709551616 = x0 := Nat.mod_eq_of_lt (by omega)
+    have e1 : x1 % 256 = x1 := Nat.mod_eq_of_lt b1
+    have f1 : x1 % 18446744073709551616 = x1 := Nat.mod_eq_of_lt (by omega)
+    have e2 : x2 % 256 = x2 := Nat.mod_eq_of_lt b2
+    have f2 : x2 % 18446744073709551616 = x2 := Nat.mod_eq_of_lt (by omega)
+    simp only [e0, f0, e1, f1, e2, f2, Nat.reduceMod, m256, sh255', Nat.mod_mod]
+    simp only [xm8_64, xm7_64, xm6_64, xm5_64, xm4_64, xm3_64, xm1_64, xm2_64, sm1_64, sm2_64, Nat.mod_mod, Nat.mod_mul_mod]
+    try simp only [a255]
+    simp only [Murmur.fin64, Murmur.tail64, Murmur.mul64, Murmur.shl64, Nat.mod_mod, xm1_64, xm2_64, sm1_64, sm2_64,
+      Nat.mod_mul_mod]
+  · have eR : evalOp .rem .i32 (len : Int) 8 = 4 := by rw [rem8_i32 len hl, hr]; rfl
+    have c0 : ([7] : List Int).contains 4 = false := by decide
+    have c1 : ([7, 6] : List Int).contains 4 = false := by decide
+    have c2 : ([7, 6, 5] : List Int).contains 4 = false := by decide
+    have c3 : ([7, 6, 5, 4] : List Int).contains 4 = true := by decide
+    have c4 : ([7, 6, 5, 4, 3] : List Int).contains 4 = true := by decide
+    have c5 : ([7, 6, 5, 4, 3, 2] : List Int).contains 4 = true := by decide
+    have c6 : ([7, 6, 5, 4, 3, 2, 1] : List Int).contains 4 = true := by decide
+    simp only [GoModel.loop_murmurHashLong.after, runRet, eval, evalC, upd, h1, h4, h5, h6, if_true, Nat.reduceEqDiff, if_false,
+      eR, eB, c0, c1, c2, c3, c4, c5, c6, cond_true, cond_false]
+    rw [drop_tail4 data (len / 8 * 8) (by omega)]
+    simp only [base, idx_add_i32 (len / 8 * 8) 1 (by omega) (by omega), idx_add_i32 (len / 8 * 8) 2 (by omega) (by omega), idx_add_i32 (len / 8 * 8) 3 (by omega) (by omega), Int.toNat_natCast, Int.reduceToNat, dataArrs_getD]
+    have b0 := bnd (len / 8 * 8)
+    have b1 := bnd (len / 8 * 8 + 1)
+    have b2 := bnd (len / 8 * 8 + 2)
+    have b3 := bnd (len / 8 * 8 + 3)
+    generalize data.getD (len / 8 * 8) 0 = x0 at b0
+    generalize data.getD (len / 8 * 8 + 1) 0 = x1 at b1
+    generalize data.getD (len / 8 * 8 + 2) 0 = x2 at b2
+    generalize data.getD (len / 8 * 8 + 3) 0 = x3 at b3
+    simp only [lit_255, lit_8, lit_16, lit_24, lit_32, lit_40, lit_48, lit_47, norm_u64_cast, shl_u64_cast, band_u64_cast,
+      band_u8_cast, mul_u64_cast, bxor_u64_cast, shr_u64_cast, Int.toNat_natCast]
+    apply congrArg (fun n : Nat => some (n : Int))
+    have e0 : x0 % 256 = x0 := Nat.mod_eq_of_lt b0
+    have f0 : x0 % 18446744073709551616 = x0 := Nat.mod_eq_of_lt (by omega)
+    have e1 : x1 % 256 = x1 := Nat.mod_eq_of_lt b1
+    have f1 : x1 % 18446744073709551616 = x1 := Nat.mod_eq_of_lt (by omega)
+    have e2 : x2 % 256 = x2 := Nat.mod_eq_of_lt b2
+    have f2 : x2 % 18446744073709551616 = x2 := Nat.mod_eq_of_lt (by omega)
+    have e3 : x3 % 256 = x3 := Nat.mod_eq_of_lt b3
+    have f3 : x3 % 18446744073709551616 = x3 := Nat.mod_eq_of_lt (by omega)
+    simp only [e0, f0, e1, f1, e2, f2, e3, f3, Nat.reduceMod, m256, sh255', Nat.mod_mod]
+    simp only [xm8_64, xm7_64, xm6_64, xm5_64, xm4_64, xm3_64, xm1_64, xm2_64, sm1_64, sm2_64, Nat.mod_mod, Nat.mod_mul_mod]
+    try simp only [a255]
+    simp only [Murmur.fin64, Murmur.tail64, Murmur.mul64, Murmur.shl64, Nat.mod_mod, xm1_64, xm2_64, sm1_64, sm2_64,
+      Nat.mod_mul_mod]
+  · have eR : evalOp .rem .i32 (len : Int) 8 = 5 := by rw [rem8_i32 len hl, hr]; rfl
+    have c0 : ([7] : List Int).contains 5 = false := by decide
+    have c1 : ([7, 6] : List Int).contains 5 = false := by decide
+    have c2 : ([7, 6, 5] : List Int).contains 5 = true := by decide
+    have c3 : ([7, 6, 5, 4] : List Int).contains 5 = true := by decide
+    have c4 : ([7, 6, 5, 4, 3] : List Int).contains 5 = true := by decide
+    have c5 : ([7, 6, 5, 4, 3, 2] : List Int).contains 5 = true := by decide
+    have c6 : ([7, 6, 5, 4, 3, 2, 1] : List Int).contains 5 = true := by decide
+    simp only [GoModel.loop_murmurHashLong.after, runRet, eval, evalC, upd, h1, h4, h5, h6, if_true, Nat.reduceEqDiff, if_false,
+      eR, eB, c0, c1, c2, c3, c4, c5, c6, cond_true, cond_false]
+    rw [drop_tail5 data (len / 8 * 8) (by omega)]
+    simp only [base, idx_add_i32 (len / 8 * 8) 1 (by omega) (by omega), idx_add_i32 (len / 8 * 8) 2 (by omega) (by omega), idx_add_i32 (len / 8 * 8) 3 (by omega) (by omega), idx_add_i32 (len / 8 * 8) 4 (by omega) (by omega), Int.toNat_natCast, Int.reduceToNat, dataArrs_getD]
+    have b0 := bnd (len / 8 * 8)
+    have b1 := bnd (len / 8 * 8 + 1)
+    have b2 := bnd (len / 8 * 8 + 2)
+    have b3 := bnd (len / 8 * 8 + 3)
+    have b4 := bnd (len / 8 * 8 + 4)
+    generalize data.getD (len / 8 * 8) 0 = x0 at b0
+    generalize data.getD (len / 8 * 8 + 1) 0 = x1 at b1
+    generalize data.getD (len / 8 * 8 + 2) 0 = x2 at b2
+    generalize data.getD (len / 8 * 8 + 3) 0 = x3 at b3
+    generalize data.getD (len / 8 * 8 + 4) 0 = x4 at b4
+    simp only [lit_255, lit_8, lit_16, lit_24, lit_32, lit_40, lit_48, lit_47, norm_u64_cast, shl_u64_cast, band_u64_cast,
+      band_u8_cast, mul_u64_cast, bxor_u64_cast, shr_u64_cast, Int.toNat_natCast]
+    apply congrArg (fun n : Nat => some (n : Int))
+    have e0 : x0 % 256 = x0 := Nat.mod_eq_of_lt b0
+    have f0 : x0 % 18446744073709551616 = x0 := Nat.mod_eq_of_lt (by omega)
+    have e1 : x1 % 256 = x1 := Nat.mod_eq_of_lt b1
+    have f1 : x1 % 18446744073709551616 = x1 := Nat.mod_eq_of_lt (by omega)
+    have e2 : x2 % 256 = x2 := Nat.mod_eq_of_lt b2
+    have f2 : x2 % 18446744073709551616 = x2 := Nat.mod_eq_of_lt (by omega)
+    have e3 : x3 % 256 = x3 := Nat.mod_eq_of_lt b3
+    have f3 : x3 % 18446744073709551616 = x3 := Nat.mod_eq_of_lt (by omega)
+    have e4 : x4 % 256 = x4 := Nat.mod_eq_of_lt b4
+    have f4 : x4 % 18446744073709551616 = x4 := Nat.mod_eq_of_lt (by omega)
+    simp only [e0, f0, e1, f1, e2, f2, e3, f3, e4, f4, Nat.reduceMod, m256, sh255', Nat.mod_mod]
+    simp only [xm8_64, xm7_64, xm6_64, xm5_64, xm4_64, xm3_64, xm1_64, xm2_64, sm1_64, sm2_64, Nat.mod_mod, Nat.mod_mul_mod]
+    try simp only [a255]
+    simp only [Murmur.fin64, Murmur.tail64, Murmur.mul64, Murmur.shl64, Nat.mod_mod, xm1_64, xm2_64, sm1_64, sm2_64,
+      Nat.mod_mul_mod]
+  · have eR : evalOp .rem .i32 (len : Int) 8 = 6 := by rw [rem8_i32 len hl, hr]; rfl
+    have c0 : ([7] : List Int).contains 6 = false := by decide
+    have c1 : ([7, 6] : List Int).contains 6 = true := by decide
+    have c2 : ([7, 6, 5] : List Int).contains 6 = true := by decide
+    have c3 : ([7, 6, 5, 4] : List Int).contains 6 = true := by decide
+    have c4 : ([7, 6, 5, 4, 3] : List Int).contains 6 = true := by decide
+    have c5 : ([7, 6, 5, 4, 3, 2] : List Int).contains 6 = true := by decide
+    have c6 : ([7, 6, 5, 4, 3, 2, 1] : List Int).contains 6 = true := by decide
+    simp only [GoModel.loop_murmurHashLong.after, runRet, eval, evalC, upd, h1, h4, h5, h6, if_true, Nat.reduceEqDiff, if_false,
+      eR, eB, c0, c1, c2, c3, c4, c5, c6, cond_true, cond_false]
+    rw [drop_tail6 data (len / 8 * 8) (by omega)]
+    simp only [base, idx_add_i32 (len / 8 * 8) 1 (by omega) (by omega), idx_add_i32 (len / 8 * 8) 2 (by omega) (by omega), idx_add_i32 (len / 8 * 8) 3 (by omega) (by omega), idx_add_i32 (len / 8 * 8) 4 (by omega) (by omega), idx_add_i32 (len / 8 * 8) 5 (by omega) (by omega), Int.toNat_natCast, Int.reduceToNat, dataArrs_getD]
+    have b0 := bnd (len / 8 * 8)
+    have b1 := bnd (len / 8 * 8 + 1)
+    have b2 := bnd (len / 8 * 8 + 2)
+    have b3 := bnd (len / 8 * 8 + 3)
+    have b4 := bnd (len / 8 * 8 + 4)
+    have b5 := bnd (len / 8 * 8 + 5)
+    generalize data.getD (len / 8 * 8) 0 = x0 at b0
+    generalize data.getD (len / 8 * 8 + 1) 0 = x1 at b1
+    generalize data.getD (len / 8 * 8 + 2) 0 = x2 at b2
+    generalize data.getD (len / 8 * 8 + 3) 0 = x3 at b3
+    generalize data.getD (len / 8 * 8 + 4) 0 = x4 at b4
+    generalize data.getD (len / 8 * 8 + 5) 0 = x5 at b5
+    simp only [lit_255, lit_8, lit_16, lit_24, lit_32, lit_40, lit_48, lit_47, norm_u64_cast, shl_u64_cast, band_u64_cast,
+      band_u8_cast, mul_u64_cast, bxor_u64_cast, shr_u64_cast, Int.toNat_natCast]
+    apply congrArg (fun n : Nat => some (n : Int))
+    have e0 : x0 % 256 = x0 := Nat.mod_eq_of_lt b0
+    have f0 : x0 % 18446744073709551616 = x0 := Nat.mod_eq_of_lt (by omega)
+    have e1 : x1 % 256 = x1 := Nat.mod_eq_of_lt b1
+    have f1 : x1 % 18446744073709551616 = x1 := Nat.mod_eq_of_lt (by omega)
+    have e2 : x2 % 256 = x2 := Nat.mod_eq_of_lt b2
+    have f2 : x2 % 18446744073709551616 = x2 := Nat.mod_eq_of_lt (by omega)
+    have e3 : x3 % 256 = x3 := Nat.mod_eq_of_lt b3
+    have f3 : x3 % 18446744073709551616 = x3 := Nat.mod_eq_of_lt (by omega)
+    have e4 : x4 % 256 = x4 := Nat.mod_eq_of_lt b4
+    have f4 : x4 % 18446744073709551616 = x4 := Nat.mod_eq_of_lt (by omega)
+    have e5 : x5 % 256 = x5 := Nat.mod_eq_of_lt b5
+    have f5 : x5 % 18446744073709551616 = x5 := Nat.mod_eq_of_lt (by omega)
+    simp only [e0, f0, e1, f1, e2, f2, e3, f3, e4, f4, e5, f5, Nat.reduceMod, m256, sh255', Nat.mod_mod]
+    simp only [xm8_64, xm7_64, xm6_64, xm5_64, xm4_64, xm3_64, xm1_64, xm2_64, sm1_64, sm2_64, Nat.mod_mod, Nat.mod_mul_mod]
+    try simp only [a255]
+    simp only [Murmur.fin64, Murmur.tail64, Murmur.mul64, Murmur.shl64, Nat.mod_mod, xm1_64, xm2_64, sm1_64, sm2_64,
+      Nat.mod_mul_mod]
+  · have eR : evalOp .rem .i32 (len : Int) 8 = 7 := by rw [rem8_i32 len hl, hr]; rfl
+    have c0 : ([7] : List Int).contains 7 = true := by decide
+    have c1 : ([7, 6] : List Int).contains 7 = true := by decide
+    have c2 : ([7, 6, 5] : List Int).contains 7 = true := by decide
+    have c3 : ([7, 6, 5, 4] : List Int).contains 7 = true := by decide
+    have c4 : ([7, 6, 5, 4, 3] : List Int).contains 7 = true := by decide
+    have c5 : ([7, 6, 5, 4, 3, 2] : List Int).contains 7 = true := by decide
+    have c6 : ([7, 6, 5, 4, 3, 2, 1] : List Int).contains 7 = true := by decide
+    simp only [GoModel.loop_murmurHashLong.after, runRet, eval, evalC, upd, h1, h4, h5, h6, if_true, Nat.reduceEqDiff, if_false,
+      eR, eB, c0, c1, c2, c3, c4, c5, c6, cond_true, cond_false]
+    rw [drop_tail7 data (len / 8 * 8) (by omega)]
+    simp only [base, idx_add_i32 (len / 8 * 8) 1 (by omega) (by omega), idx_add_i32 (len / 8 * 8) 2 (by omega) (by omega), idx_add_i32 (len / 8 * 8) 3 (by omega) (by omega), idx_add_i32 (len / 8 * 8) 4 (by omega) (by omega), idx_add_i32 (len / 8 * 8) 5 (by omega) (by omega), idx_add_i32 (len / 8 * 8) 6 (by omega) (by omega), Int.toNat_natCast, Int.reduceToNat, dataArrs_getD]
+    have b0 := bnd (len / 8 * 8)
+    have b1 := bnd (len / 8 * 8 + 1)
+    have b2 := bnd (len / 8 * 8 + 2)
+    have b3 := bnd (len / 8 * 8 + 3)
+    have b4 := bnd (len / 8 * 8 + 4)
+    have b5 := bnd (len / 8 * 8 + 5)
+    have b6 := bnd (len / 8 * 8 + 6)
+    generalize data.getD (len / 8 * 8) 0 = x0 at b0
+    generalize data.getD (len / 8 * 8 + 1) 0 = x1 at b1
+    generalize data.getD (len / 8 * 8 + 2) 0 = x2 at b2
+    generalize data.getD (len / 8 * 8 + 3) 0 = x3 at b3
+    generalize data.getD (len / 8 * 8 + 4) 0 = x4 at b4
+    generalize data.getD (len / 8 * 8 + 5) 0 = x5 at b5
+    generalize data.getD (len / 8 * 8 + 6) 0 = x6 at b6
+    simp only [lit_255, lit_8, lit_16, lit_24, lit_32, lit_40, lit_48, lit_47, norm_u64_cast, shl_u64_cast, band_u64_cast,
+      band_u8_cast, mul_u64_cast, bxor_u64_cast, shr_u64_cast, Int.toNat_natCast]
+    apply congrArg (fun n : Nat => some (n : Int))
+    have e0 : x0 % 256 = x0 := Nat.mod_eq_of_lt b0
+    have f0 : x0 % 18446744073709551616 = x0 := Nat.mod_eq_of_lt (by omega)
+    have e1 : x1 % 256 = x1 := Nat.mod_eq_of_lt b1
+    have f1 : x1 % 18446744073709551616 = x1 := Nat.mod_eq_of_lt (by omega)
+    have e2 : x2 % 256 = x2 := Nat.mod_eq_of_lt b2
+    have f2 : x2 % 18446744073709551616 = x2 := Nat.mod_eq_of_lt (by omega)
+    have e3 : x3 % 256 = x3 := Nat.mod_eq_of_lt b3
+    have f3 : x3 % 18446744073709551616 = x3 := Nat.mod_eq_of_lt (by omega)
+    have e4 : x4 % 256 = x4 := Nat.mod_eq_of_lt b4
+    have f4 : x4 % 18446744073709551616 = x4 := Nat.mod_eq_of_lt (by omega)
+    have e5 : x5 % 256 = x5 := Nat.mod_eq_of_lt b5
+    have f5 : x5 % 18446744073709551616 = x5 := Nat.mod_eq_of_lt (by omega)
+    have e6 : x6 % 256 = x6 := Nat.mod_eq_of_lt b6
+    have f6 : x6 % 18446744073709551616 = x6 := Nat.mod_eq_of_lt (by omega)
+    simp only [e0, f0, e1, f1, e2, f2, e3, f3, e4, f4, e5, f5, e6, f6, Nat.reduceMod, m256, sh255', Nat.mod_mod]
+    simp only [xm8_64, xm7_64, xm6_64, xm5_64, xm4_64, xm3_64, xm1_64, xm2_64, sm1_64, sm2_64, Nat.mod_mod, Nat.mod_mul_mod]
+    try simp only [a255]
+    simp only [Murmur.fin64, Murmur.tail64, Murmur.mul64, Murmur.shl64, Nat.mod_mod, xm1_64, xm2_64, sm1_64, sm2_64,
+      Nat.mod_mul_mod]
+
+
+/-- **`murmurHashLong(data, len(data), seed)` as transcribed = `Murmur.murmur64 data seed`** (hence
+    MurmurHash64A by `C15.murmur64_ref`), for every byte string shorter than 2^31 and every 32-bit seed.
+    Identifier numbers: data 0, length 1, seed 2, i 3, h 4, m 5, r 6, length8 7. -/
+theorem murmur64_fn_bridge (pre body after : List Stmt)
+    (hpre : sameVars [4, 5, 6, 7, 1] pre GoModel.loop_murmurHashLong.pre = true)
+    (hbody : sameVars [4, 5, 6, 1] body GoModel.loop_murmurHashLong.body = true)
+    (hafter : normStmts after = normStmts GoModel.loop_murmurHashLong.after)
+    (data : Bytes) (hw : WFB data) (seed : Nat) (hs : seed < 4294967296) (hl : data.length < 2147483648)
+    (ρ : Env) (h1 : ρ 1 = (data.length : Int)) (h2 : ρ 2 = (seed : Int)) :
+    callLoop (dataArrs data) pre body after 3 (data.length / 8) ρ = ((Murmur.murmur64 data seed : Nat) : Int) := by
+  have hB : ∀ ρ, runEnv (dataArrs data) ρ body 4 = runEnv (dataArrs data) ρ GoModel.loop_murmurHashLong.body 4 :=
+    fun ρ => sameVars_eq hbody _ ρ 4 (by simp)
+  have hF : ∀ ρ x, x = 5 ∨ x = 6 ∨ x = 1 → runEnv (dataArrs data) ρ body x = ρ x := by
+    intro ρ x hx
+    rcases hx with rfl | rfl | rfl
+    · exact (sameVars_eq hbody _ ρ 5 (by simp)).trans (murmur64_body_frame _ ρ 5 (by decide))
+    · exact (sameVars_eq hbody _ ρ 6 (by simp)).trans (murmur64_body_frame _ ρ 6 (by decide))
+    · exact (sameVars_eq hbody _ ρ 1 (by simp)).trans (murmur64_body_frame _ ρ 1 (by decide))
+  have ⟨p4, p5, p6, p7, p1⟩ := murmur64_pre_bridge (dataArrs data) ρ data.length seed h1 h2 hl hs
+  have sv := fun x hx => sameVars_eq hpre (dataArrs data) ρ x hx
+  have hh0 : (seed &&& 0xffffffff) ^^^ Murmur.mul64 (data.length % 18446744073709551616) Murmur.m64 < 18446744073709551616 := by
+    have a1 : seed &&& 0xffffffff < 2 ^ 64 :=
+      Nat.lt_of_lt_of_le (Nat.and_lt_two_pow seed (by decide : 0xffffffff < 2 ^ 32)) (by decide)
+    exact Nat.xor_lt_two_pow (n := 64) a1 (by unfold Murmur.mul64; exact Nat.mod_lt _ (by decide))
+  have ⟨l4, l5, l6, l1⟩ := murmur64_loop_bridge body data hw hB hF (data.length / 8) 0
+    (runEnv (dataArrs data) ρ pre) _ (by rw [sv 4 (by simp)]; exact p4) (by rw [sv 5 (by simp)]; exact p5)
+    (by rw [sv 6 (by simp)]; exact p6) hh0 (by omega)
+  unfold callLoop
+  rw [(normStmts_eq hafter _ _).2]
+  rw [murmur64_after_bridge data hw _ _ (by rw [l1, sv 1 (by simp)]; exact p1) l4 l5 l6
+    (by unfold blocksH8; exact blocksG8_lt data _ _ _ hh0) hl, retVal_some]
+  apply congrArg (fun n : Nat => (n : Int))
+  have hw8 := walk8_blocksH8 data (data.length / 8) 0
+    ((seed &&& 0xffffffff) ^^^ Murmur.mul64 (data.length % 18446744073709551616) Murmur.m64) (by omega) (by omega)
+  simp only [Nat.mul_zero, List.drop_zero, Nat.zero_add] at hw8
+  unfold Murmur.murmur64 Murmur.blocks64
+  simp only [hw8]
+  rw [Nat.mul_comm]
+
 end GoBridge
